@@ -348,6 +348,233 @@ example : weekdayAndDay ⟨⟨2020, 2, 12⟩, 50400⟩ false 12 3 =
     .ok (ofString "2020-02-12") ⟨⟨2020, 2, 12⟩, 0⟩ ⟨⟨2020, 2, 12⟩, 0⟩ := by decide
 example : weekdayAndDay ⟨⟨2020, 2, 12⟩, 50400⟩ true 3 1 = .noResult := by decide
 
+
+/-! ## a day number on its own ("on the 15th" → `the 15th`; `parse_single_number`) -/
+
+/-- the stated day of the reference's month is before the reference datetime -/
+def dayBefore (R : DateTime) (day : Nat) : Prop := day < R.date.d ∨ (day = R.date.d ∧ 0 < R.secs)
+
+theorem d0_lt_iff (R : DateTime) (hv : R.date.valid = true) (day : Nat) (h1 : 1 ≤ day) :
+    (⟨⟨R.date.y, R.date.m, day⟩, 0⟩ : DateTime).lt R = true ↔ dayBefore R day := by
+  rw [lt_iff]
+  have a := ord_day R.date.y R.date.m day h1
+  have b := ord_day R.date.y R.date.m R.date.d ((valid_iff _).1 hv).2.2.2.2.1
+  have e : (⟨R.date.y, R.date.m, R.date.d⟩ : Date) = R.date := rfl
+  rw [e] at b
+  unfold dayBefore
+  simp only
+  omega
+
+/-- For a day every month has (1..28) and every reference: both values are the stated day, at midnight, in two
+consecutive months, `past < R ≤ future` as datetimes — the nearest occurrence on each side. TIMEX `XXXX-XX-DD`. -/
+theorem on_day_spec (R : DateTime) (hv : R.date.valid = true) (day : Nat) (h1 : 1 ≤ day) (h28 : day ≤ 28)
+    (hy1 : 2 ≤ R.date.y) (hy2 : R.date.y ≤ 9998) :
+    ∃ f p, onDay R day = .ok (luisDayOnly day) f p ∧ f.secs = 0 ∧ p.secs = 0 ∧
+      f.date.valid = true ∧ p.date.valid = true ∧ f.date.d = day ∧ p.date.d = day ∧
+      monthIdx f.date = monthIdx p.date + 1 ∧ f.lt R = false ∧ p.lt R = true := by
+  have hR := (valid_iff _).1 hv
+  have vd : (⟨R.date.y, R.date.m, day⟩ : Date).valid = true := valid_md _ _ _ (by omega) (by omega) hR.2.2.1 hR.2.2.2.1 h1 h28
+  have am := addMonth_small ⟨R.date.y, R.date.m, day⟩ vd h28
+  simp only at am
+  unfold onDay
+  rw [isValidDate_nat, vd, if_pos rfl, safeCreate_ymd _ _ _ vd]
+  have eR : (⟨R.date.y, R.date.m, R.date.d⟩ : Date) = R.date := rfl
+  cases hlt : (⟨⟨R.date.y, R.date.m, day⟩, 0⟩ : DateTime).lt R with
+  | true =>
+    have nle : R.le ⟨⟨R.date.y, R.date.m, day⟩, 0⟩ = false := by
+      have : ¬ (R.le ⟨⟨R.date.y, R.date.m, day⟩, 0⟩ = true) := by
+        have := (lt_iff _ R).1 hlt
+        rw [le_iff]; omega
+      simpa using this
+    have e := am.1 (by omega)
+    simp only [hlt, if_true, nle, Bool.false_eq_true, if_false, addDelta, e, ofOpt, Option.bind_eq_bind, Option.map_some,
+      Option.bind_some, Option.pure_def, Option.getD_some]
+    refine ⟨_, _, rfl, rfl, rfl, ?_, vd, ?_, rfl, ?_, ?_, hlt⟩
+    · split
+      · exact valid_md _ _ _ (by omega) (by omega) (by omega) (by omega) h1 h28
+      · exact valid_md _ _ _ (by omega) (by omega) (by omega) (by omega) h1 h28
+    · split <;> rfl
+    · unfold monthIdx; split <;> simp only <;> omega
+    · have : R.date.ord < (if R.date.m = 12 then (⟨R.date.y + 1, 1, day⟩ : Date) else ⟨R.date.y, R.date.m + 1, day⟩).ord := by
+        apply ord_lt_of_lexLt _ _ hv
+        · split
+          · exact valid_md _ _ _ (by omega) (by omega) (by omega) (by omega) h1 h28
+          · exact valid_md _ _ _ (by omega) (by omega) (by omega) (by omega) h1 h28
+        · unfold Date.lexLt; split <;> simp <;> omega
+      exact (lt_of_ord R ⟨_, 0⟩ this).2
+  | false =>
+    have hle := not_lt_le _ R hlt
+    have e := am.2 (by omega)
+    simp only [hlt, Bool.false_eq_true, if_false, hle, if_true, addDelta, e, ofOpt, Option.bind_eq_bind, Option.map_some,
+      Option.bind_some, Option.pure_def, Option.getD_some]
+    refine ⟨_, _, rfl, rfl, rfl, vd, ?_, rfl, ?_, ?_, hlt, ?_⟩
+    · split
+      · exact valid_md _ _ _ (by omega) (by omega) (by omega) (by omega) h1 h28
+      · exact valid_md _ _ _ (by omega) (by omega) (by omega) (by omega) h1 h28
+    · split <;> rfl
+    · unfold monthIdx; split <;> simp only <;> omega
+    · have : (if R.date.m = 1 then (⟨R.date.y - 1, 12, day⟩ : Date) else ⟨R.date.y, R.date.m - 1, day⟩).ord < R.date.ord := by
+        apply ord_lt_of_lexLt _ _ _ hv
+        · unfold Date.lexLt; split <;> simp <;> omega
+        · split
+          · exact valid_md _ _ _ (by omega) (by omega) (by omega) (by omega) h1 h28
+          · exact valid_md _ _ _ (by omega) (by omega) (by omega) (by omega) h1 h28
+      exact (lt_of_ord ⟨_, 0⟩ R this).1
+
+/-- A day the reference's month does not have: `strptime` raises — no result at all, for every reference
+("the 31st" asked in any 30-day month, "the 30th" in February). -/
+theorem on_day_missing_raises (R : DateTime) (day : Nat) (h : daysInMonth R.date.y R.date.m < day) :
+    onDay R day = .raises := by
+  unfold onDay
+  have nv : ¬ ((⟨R.date.y, R.date.m, day⟩ : Date).valid = true) := by rw [valid_iff]; simp only; omega
+  rw [isValidDate_nat]
+  simp [nv]
+
+/-- Witness (days 29..31, past side): "the 31st" asked on 2020-12-12 → past value 2020-11-30, which is not a 31st
+(`datedelta(months=-1)` clamps); the nearest 31st before is 2020-10-31. -/
+theorem on_day_past_clamped :
+    onDay ⟨⟨2020, 12, 12⟩, 50400⟩ 31 = .ok (ofString "XXXX-XX-31") ⟨⟨2020, 12, 31⟩, 0⟩ ⟨⟨2020, 11, 30⟩, 0⟩ := by decide
+
+/-- Witness (days 29..31, future side): "the 31st" asked on 2020-01-31 14:00 → future value 2020-03-01 (the shim of
+`datedelta` rolls forward; the nearest 31st on or after is 2020-01-31 itself, the next one 2020-03-31). -/
+theorem on_day_future_rolls :
+    onDay ⟨⟨2020, 1, 31⟩, 50400⟩ 31 = .ok (ofString "XXXX-XX-31") ⟨⟨2020, 3, 1⟩, 0⟩ ⟨⟨2020, 1, 31⟩, 0⟩ := by decide
+
+/-- Witness (time of day): "the 15th" asked on 2020-05-15 12:00 → future 2020-06-15, past 2020-05-15: `past < R ≤
+future` holds for datetimes, but on *dates* the reference's own day is the past value, not the future one
+(at 00:00:00 it is the future value: `on_day_spec` with `R.secs = 0`). -/
+theorem on_day_time_of_day :
+    onDay ⟨⟨2020, 5, 15⟩, 43200⟩ 15 = .ok (ofString "XXXX-XX-15") ⟨⟨2020, 6, 15⟩, 0⟩ ⟨⟨2020, 5, 15⟩, 0⟩ ∧
+    onDay ⟨⟨2020, 5, 15⟩, 0⟩ 15 = .ok (ofString "XXXX-XX-15") ⟨⟨2020, 5, 15⟩, 0⟩ ⟨⟨2020, 4, 15⟩, 0⟩ := by decide
+
+/-- On dates: when the reference is at 00:00:00, `past.date < R.date ≤ future.date` (corollary of `on_day_spec`). -/
+theorem on_day_dates_at_midnight (R : DateTime) (hs : R.secs = 0) (f p : DateTime) (hf : f.lt R = false) (hp : p.lt R = true) :
+    p.date.ord < R.date.ord ∧ R.date.ord ≤ f.date.ord := by
+  have a : ¬ (f.lt R = true) := by simp [hf]
+  rw [lt_iff] at a hp
+  omega
+
+/-- `parse_single_number`, a day every month has: like `on_day_spec`, **unless** the reference is in December and the
+stated day is already past — then `replace(month=13)` raises (`single_number_december_raises`). -/
+theorem single_number_spec (R : DateTime) (hv : R.date.valid = true) (day : Nat) (h1 : 1 ≤ day) (h28 : day ≤ 28)
+    (hy1 : 2 ≤ R.date.y) (hy2 : R.date.y ≤ 9998) (g : ¬ (R.date.m = 12 ∧ dayBefore R day)) :
+    ∃ f p, singleNumber R day = .ok (luisDayOnly day) f p ∧ f.secs = 0 ∧ p.secs = 0 ∧
+      f.date.valid = true ∧ p.date.valid = true ∧ f.date.d = day ∧ p.date.d = day ∧
+      monthIdx f.date = monthIdx p.date + 1 ∧ f.lt R = false ∧ p.lt R = true := by
+  have hR := (valid_iff _).1 hv
+  have vd : (⟨R.date.y, R.date.m, day⟩ : Date).valid = true := valid_md _ _ _ (by omega) (by omega) hR.2.2.1 hR.2.2.2.1 h1 h28
+  have ne : (⟨⟨R.date.y, R.date.m, day⟩, 0⟩ : DateTime) ≠ minValue := by
+    intro e
+    have : R.date.y = 1 := by
+      have := congrArg (fun x : DateTime => x.date.y) e
+      simpa [minValue] using this
+    omega
+  have dl := d0_lt_iff R hv day h1
+  unfold singleNumber
+  rw [safeCreate_ymd _ _ _ vd]
+  simp only [ne_eq, ne, not_false_eq_true, decide_true, Bool.true_and]
+  cases hlt : (⟨⟨R.date.y, R.date.m, day⟩, 0⟩ : DateTime).lt R with
+  | true =>
+    have hm : R.date.m ≠ 12 := fun e => g ⟨e, dl.1 hlt⟩
+    have nle : R.le ⟨⟨R.date.y, R.date.m, day⟩, 0⟩ = false := by
+      have : ¬ (R.le ⟨⟨R.date.y, R.date.m, day⟩, 0⟩ = true) := by
+        have := (lt_iff _ R).1 hlt
+        rw [le_iff]; omega
+      simpa using this
+    have vn : (⟨R.date.y, R.date.m + 1, day⟩ : Date).valid = true :=
+      valid_md _ _ _ (by omega) (by omega) (by omega) (by omega) h1 h28
+    have rm : replaceMonth ⟨⟨R.date.y, R.date.m, day⟩, 0⟩ ((R.date.m : Int) + 1) = some ⟨⟨R.date.y, R.date.m + 1, day⟩, 0⟩ := by
+      unfold replaceMonth
+      have : ((R.date.m : Int) + 1).toNat = R.date.m + 1 := by omega
+      simp only [this, isValidDate_nat, vn, and_true]
+      rw [if_pos (by omega)]
+    simp only [hlt, if_true, nle, Bool.false_eq_true, if_false, rm, ofOpt, Option.bind_eq_bind, Option.bind_some,
+      Option.pure_def, Option.getD_some]
+    refine ⟨_, _, rfl, rfl, rfl, vn, vd, rfl, rfl, ?_, ?_, hlt⟩
+    · unfold monthIdx; simp only; omega
+    · have : R.date.ord < (⟨R.date.y, R.date.m + 1, day⟩ : Date).ord := by
+        apply ord_lt_of_lexLt _ _ hv vn
+        unfold Date.lexLt; simp <;> omega
+      exact (lt_of_ord R ⟨_, 0⟩ this).2
+  | false =>
+    have hle := not_lt_le _ R hlt
+    simp only [hlt, Bool.false_eq_true, if_false, hle, if_true]
+    by_cases hm1 : R.date.m = 1
+    · have vp : (⟨R.date.y - 1, 12, day⟩ : Date).valid = true :=
+        valid_md _ _ _ (by omega) (by omega) (by omega) (by omega) h1 h28
+      have rm : replaceMonthYear ⟨⟨R.date.y, R.date.m, day⟩, 0⟩ 12 ((R.date.y : Int) - 1) = some ⟨⟨R.date.y - 1, 12, day⟩, 0⟩ := by
+        unfold replaceMonthYear
+        have e1 : ((R.date.y : Int) - 1) = ((R.date.y - 1 : Nat) : Int) := by omega
+        have e2 : ((R.date.y : Int) - 1).toNat = R.date.y - 1 := by omega
+        simp only [e2]
+        rw [e1, isValidDate_nat]
+        simp [vp]
+      have c : ((R.date.m : Int) - 1 == 0) = true := by simp; omega
+      simp only [c, if_true, rm, ofOpt, Option.bind_eq_bind, Option.bind_some, Option.pure_def, Option.getD_some]
+      refine ⟨_, _, rfl, rfl, rfl, vd, vp, rfl, rfl, ?_, hlt, ?_⟩
+      · unfold monthIdx; simp only; omega
+      · have : (⟨R.date.y - 1, 12, day⟩ : Date).ord < R.date.ord := by
+          apply ord_lt_of_lexLt _ _ vp hv
+          unfold Date.lexLt; simp <;> omega
+        exact (lt_of_ord ⟨_, 0⟩ R this).1
+    · have vp : (⟨R.date.y, R.date.m - 1, day⟩ : Date).valid = true :=
+        valid_md _ _ _ (by omega) (by omega) (by omega) (by omega) h1 h28
+      have rm : replaceMonth ⟨⟨R.date.y, R.date.m, day⟩, 0⟩ ((R.date.m : Int) - 1) = some ⟨⟨R.date.y, R.date.m - 1, day⟩, 0⟩ := by
+        unfold replaceMonth
+        have : ((R.date.m : Int) - 1).toNat = R.date.m - 1 := by omega
+        simp only [this, isValidDate_nat, vp, and_true]
+        rw [if_pos (by omega)]
+      have c : ((R.date.m : Int) - 1 == 0) = false := by simp; omega
+      simp only [c, Bool.false_eq_true, if_false, rm, ofOpt, Option.bind_eq_bind, Option.bind_some, Option.pure_def,
+        Option.getD_some]
+      refine ⟨_, _, rfl, rfl, rfl, vd, vp, rfl, rfl, ?_, hlt, ?_⟩
+      · unfold monthIdx; simp only; omega
+      · have : (⟨R.date.y, R.date.m - 1, day⟩ : Date).ord < R.date.ord := by
+          apply ord_lt_of_lexLt _ _ vp hv
+          unfold Date.lexLt; simp <;> omega
+        exact (lt_of_ord ⟨_, 0⟩ R this).1
+
+/-- In December a stated day that is already past makes `parse_single_number` raise (`replace(month=13)`), for every
+such reference and day. -/
+theorem single_number_december_raises (R : DateTime) (hv : R.date.valid = true) (day : Nat) (h1 : 1 ≤ day)
+    (hy : 2 ≤ R.date.y) (hm : R.date.m = 12) (hb : dayBefore R day) : singleNumber R day = .raises := by
+  have hR := (valid_iff _).1 hv
+  have hd31 : day ≤ 31 := by
+    have := daysInMonth_le R.date.y R.date.m
+    unfold dayBefore at hb; omega
+  have vd : (⟨R.date.y, R.date.m, day⟩ : Date).valid = true := by
+    rw [valid_iff]; simp only
+    have : daysInMonth R.date.y R.date.m = 31 := by rw [hm]; rfl
+    omega
+  have ne : (⟨⟨R.date.y, R.date.m, day⟩, 0⟩ : DateTime) ≠ minValue := by
+    intro e
+    have : R.date.y = 1 := by
+      have := congrArg (fun x : DateTime => x.date.y) e
+      simpa [minValue] using this
+    omega
+  have hlt := (d0_lt_iff R hv day h1).2 hb
+  unfold singleNumber
+  rw [safeCreate_ymd _ _ _ vd]
+  have rm : replaceMonth ⟨⟨R.date.y, R.date.m, day⟩, 0⟩ ((R.date.m : Int) + 1) = none := by
+    unfold replaceMonth
+    have : ¬ (1 ≤ (R.date.m : Int) + 1 ∧ isValidDate (R.date.y : Int) ((R.date.m : Int) + 1).toNat day = true) := by
+      intro ⟨_, b⟩
+      have e : ((R.date.m : Int) + 1).toNat = 13 := by omega
+      rw [e, isValidDate_nat, valid_iff] at b
+      simp only at b
+      omega
+    simp only at this ⊢
+    rw [if_neg this]
+  simp [ne, hlt, rm, ofOpt]
+
+/-- Witness: "the thirtieth" asked on 2020-12-31 raises. -/
+theorem single_december_raises : singleNumber ⟨⟨2020, 12, 31⟩, 36000⟩ 30 = .raises := by decide
+
+example : singleNumber ⟨⟨2020, 2, 10⟩, 50400⟩ 15 = .ok (ofString "XXXX-XX-15") ⟨⟨2020, 2, 15⟩, 0⟩ ⟨⟨2020, 1, 15⟩, 0⟩ := by
+  decide
+/-- a day the month lacks: both values are `min_value`, which the merged parser turns into no value -/
+example : singleNumber ⟨⟨2020, 2, 1⟩, 36000⟩ 31 = .ok (ofString "XXXX-XX-31") minValue minValue := by decide
+
 /-! ## the order of the branches and of the sub-parsers -/
 
 /-- `parse_implicit_date` asks the patterns in a fixed order; the first that matches decides alone. -/
